@@ -58,7 +58,7 @@ pub fn gen_link_set(rng: &mut Rng, nfiles: usize, hostile: bool) -> Vec<LinkFile
                     0 | 1 => { let i = rng.usize(pool.len()); if !definers[i].contains(&f) { ext_needed.insert(i); } K::Fill(PcOp::Label(recase(rng, &pool[i]))) }
                     2 => K::Fill(PcOp::Num(rng.below(65536) as i32)),
                     3 => K::Blkw(1 + rng.below(3) as i32),
-                    4 => K::Stringz(gen_string(rng, true).chars().take(4).collect()),
+                    4 => { let ascii = !rng.chance(1, 4); K::Stringz(gen_string(rng, ascii).chars().take(4).collect()) }
                     5 => K::Add(rng.below(8) as u8, rng.below(8) as u8, Src::Imm(rng.range(-16, 15) as i32)),
                     6 => K::Halt,
                     _ => K::Not(rng.below(8) as u8, rng.below(8) as u8),
